@@ -11,7 +11,7 @@ import (
 // C12 — cycle accounting follows the documented latency model.
 //
 // For every program of the C01 general set and every initial state of a
-// 6-element set:
+// 7-element set:
 //   MVP-1  : returned cycles == sum over the reference trace of
 //            fetch (MemoryAccess) + decode (1) + [MemoryAccess if the instruction reads memory]
 //            + InstructionType.Cycles() + write-back (RegisterAccess for a register result,
@@ -27,6 +27,8 @@ var c12Inits = []pxInit{
 	pxInits[0], pxInits[1], pxInits[2], pxInits[3],
 	{ID: "big", Regs: map[risc.RegisterType]int32{risc.T0: 0x7fffffff, risc.T1: -0x80000000, risc.T2: 0x12345678}, Mem: func(i int) int8 { return int8(i*13 + 5) }},
 	{ID: "eq", Regs: map[risc.RegisterType]int32{risc.T0: 1, risc.T1: 1, risc.T2: 1}, Mem: func(i int) int8 { return -1 }},
+	// register VALUES that look like addresses of the lines the programs touch
+	{ID: "hi", Regs: map[risc.RegisterType]int32{risc.T0: 100, risc.T1: 70, risc.T2: 66}, Mem: func(i int) int8 { return int8(i%7 + 64) }},
 }
 
 func c12InitByID(id string) *pxInit {
@@ -271,7 +273,7 @@ func c12Run(c *RunCtx) {
 		})
 	}
 	c.AddExtra("programs", float64(progs))
-	c.Sum.Rule = "PX: every program of the C01 general set up to length 2 (thorough: plus every length-3 program over the core alphabet) x 6 initial states x 33 configurations; MVP-1 exact against the latency model computed from the reference trace, MVP-2 <= MVP-1, cycles > 0 and >= ceil(n/width) everywhere, and equal cycles for every pair of initial states with identical reference pc and address sequences; non-trivial = distinct programs for which at least one such pair of initial states exists"
+	c.Sum.Rule = "PX: every program of the C01 general set up to length 2 (thorough: plus every length-3 program over the core alphabet) x 7 initial states x 33 configurations; MVP-1 exact against the latency model computed from the reference trace, MVP-2 <= MVP-1, cycles > 0 and >= ceil(n/width) everywhere, and equal cycles for every pair of initial states with identical reference pc and address sequences; non-trivial = distinct programs for which at least one such pair of initial states exists"
 	c.Assume("the latency table is an independent copy of the documented one (memory 309, register 1, decode 1, loads 50 execute cycles, others 1); an instruction that produces a register result pays the register write-back even when rd is zero")
 	c.Assume("only executions whose architectural result equals the reference take part (wrong results are C01's)")
 }
